@@ -9,5 +9,6 @@ import (
 
 func TestMain(m *testing.M) {
 	kit.InstallLogCapture()
+	kit.InstallFakeDNS() // once, before any goroutine of the code under test can be reading net.DefaultResolver
 	os.Exit(m.Run())
 }
